@@ -11,9 +11,14 @@ def run(pf):
         shutil.copy('/verif/known_findings.json',S+'/verif/'); open(S+'/verif/MANIFEST.json','w').write('{}')
         if subprocess.run(['patch','-p1','-s','-i',pf],cwd=S+'/repo',capture_output=True).returncode!=0: return sid,None
         res={}
+        r=subprocess.run(['/verif/bin/vischeck','-matrix','-repo',S+'/repo','-verif',S+'/verif'],capture_output=True,text=True)
+        cur=None;viol={};codes={}
+        for l in r.stdout.splitlines():
+            if l.startswith('##PROP '): cur=l.split()[1]; viol[cur]=set()
+            elif l.startswith('##EXIT '): _,pp,c=l.split(); codes[pp]=int(c)
+            elif cur and l.startswith('VIOLATED'): viol[cur].add(l.split()[1]+' '+' '.join(l.split()[2:]).split(' [')[0])
         for p in props:
-            r=subprocess.run(['/verif/bin/vischeck','-p',p,'-repo',S+'/repo','-verif',S+'/verif'],capture_output=True,text=True)
-            if r.returncode!=0: res[p]=sorted(set(l.split()[1]+' '+' '.join(l.split()[2:]).split(' [')[0] for l in r.stdout.splitlines() if l.startswith('VIOLATED')))[:6] or ['exit %d'%r.returncode]
+            if codes.get(p,2)!=0: res[p]=sorted(viol.get(p,()))[:6] or ['exit %d'%codes.get(p,2)]
         return sid,res
     finally: shutil.rmtree(S,ignore_errors=True)
 out={}
